@@ -10,6 +10,8 @@ package main
 
 import (
 	"bytes"
+	"crypto/sha256"
+	"encoding/binary"
 	"fmt"
 	"math/big"
 	"reflect"
@@ -55,7 +57,33 @@ type mstate struct { // model state; P[i] == nil means Uninit
 	S [nS]*big.Int
 }
 
-func (s istate) key() string { return fmt.Sprint(s) }
+// key is a 128-bit digest of the exact stored representation (limbs and validity flags of every slot).
+func (s istate) key() [16]byte {
+	var b [(nP*12+nS*4)*8 + nP]byte
+	o := 0
+	put := func(l [4]uint64) {
+		for _, w := range l {
+			binary.LittleEndian.PutUint64(b[o:], w)
+			o += 8
+		}
+	}
+	for i := range s.P {
+		put(s.P[i].x)
+		put(s.P[i].y)
+		put(s.P[i].z)
+		if s.P[i].valid {
+			b[o] = 1
+		}
+		o++
+	}
+	for i := range s.S {
+		put(s.S[i])
+	}
+	h := sha256.Sum256(b[:])
+	var k [16]byte
+	copy(k[:], h[:16])
+	return k
+}
 
 func materialise(s istate) ([]*Point, []*Scalar) {
 	ps := make([]*Point, nP)
@@ -448,18 +476,20 @@ func pathNames(path []int) []string {
 
 func bfs(depth int) {
 	is0, ms0 := initialState()
-	seen := map[string]bool{is0.key(): true}
+	seen := map[[16]byte]struct{}{is0.key(): {}}
 	frontier := []node{{is0, ms0, nil}}
 	var mu sync.Mutex
 	var pruned, leaves int64
 	for d := 1; d <= depth; d++ {
 		var next []node
+		var newLast int64
 		mc.Par(len(frontier), func(i int) {
 			if R.Expired() {
 				return
 			}
 			n := frontier[i]
 			var local []node
+			var lastKeys [][16]byte
 			var t, pr, lv int64
 			for oi := range opinsts {
 				o := &opinsts[oi]
@@ -490,6 +520,10 @@ func bfs(depth int) {
 					pr++
 					continue
 				}
+				if d == depth { // last level: the state is counted, not expanded — keep its key only
+					lastKeys = append(lastKeys, nis.key())
+					continue
+				}
 				local = append(local, node{nis, nms, append(append([]int{}, n.path...), oi)})
 			}
 			R.T(t)
@@ -498,23 +532,29 @@ func bfs(depth int) {
 			leaves += lv
 			for _, c := range local {
 				k := c.is.key()
-				if !seen[k] {
-					seen[k] = true
+				if _, ok := seen[k]; !ok {
+					seen[k] = struct{}{}
 					next = append(next, c)
+				}
+			}
+			for _, k := range lastKeys {
+				if _, ok := seen[k]; !ok {
+					seen[k] = struct{}{}
+					newLast++
 				}
 			}
 			mu.Unlock()
 		})
-		R.Class(fmt.Sprintf("bfs/depth %d: new states", d), int64(len(next)))
+		R.Class(fmt.Sprintf("bfs/depth %d: new states", d), int64(len(next))+newLast)
 		// deterministic order
 		sort.Slice(next, func(a, b int) bool { return fmt.Sprint(next[a].path) < fmt.Sprint(next[b].path) })
 		frontier = next
 		if d == depth {
 			break
 		}
-		capN := 6000
+		capN := 8000 // quick: depth 3 is complete (about 6.3 k states at depth 2)
 		if R.Thorough() {
-			capN = 60000
+			capN = 1 << 30 // thorough: depth 4 is complete unless the internal time budget stops it (reported as a cap)
 		}
 		if len(frontier) > capN {
 			R.Cap(fmt.Sprintf("BFS depth %d: %d new states, expanding an evenly spaced %d of them at the next level", d, len(frontier), capN))
@@ -1036,11 +1076,14 @@ func main() {
 	if R.Thorough() {
 		depth = 4
 	}
-	bfs(depth)
 	R.Sample("operation instance", map[string]any{"name": opinsts[len(opinsts)/3].name, "meaning": "Pn / Sn are pool slots; the same slot in several positions is the aliasing"})
 	uninitMatrix()
 	immutability()
 	constructors()
+	if R.Thorough() {
+		R.SetBudget(3000) // the complete depth-4 search needs about 2*10^8 transitions
+	}
+	bfs(depth)
 	R.Expect("bfs/panic leaves (uninitialised operand refused)", "uninitialised-operand matrix cells", "immutability matrix cells (constructor x mutated value)")
 	R.Finish()
 }
